@@ -304,34 +304,52 @@ def buildEastermask (byeaster : List Int) (year yearlen yearordinal : Int) : Py.
   let eyday := Cal.toOrdinal e.1 e.2.1 e.2.2 - yearordinal
   byeaster.foldlM (fun mask off => setIdx mask (eyday + off) 1) mask0
 
+/-- the year-level fields of `rebuild` (lines 1134-1152), before the computed masks -/
+def baseInfo (year : Int) : Info :=
+  let leap := Cal.isLeap year
+  { yearlen := if leap then 366 else 365,
+    nextyearlen := if Cal.isLeap (year + 1) then 366 else 365,
+    yearordinal := Cal.toOrdinal year 1 1,
+    yearweekday := Cal.weekdayOfOrd (Cal.toOrdinal year 1 1),
+    mmask := if leap then Gen.M366MASK else Gen.M365MASK,
+    mdaymask := if leap then Gen.MDAY366MASK else Gen.MDAY365MASK,
+    nmdaymask := if leap then Gen.NMDAY366MASK else Gen.NMDAY365MASK,
+    wdaymask := Gen.WDAYMASK.drop (Cal.weekdayOfOrd (Cal.toOrdinal year 1 1)).toNat,   -- WDAYMASK[wday:]
+    mrange := if leap then Gen.M366RANGE else Gen.M365RANGE,
+    wnomask := none, nwdaymask := none, eastermask := none }
+
+def wnomaskOf (r : Rule) (year : Int) (b : Info) : Py.R (Option (List Int)) :=
+  match r.byweekno with
+  | some (w :: ws) =>
+    match buildWnomask r.wkst (w :: ws) year b.yearlen b.yearweekday b.wdaymask with
+    | .ok m => .ok (some m)
+    | .error e => .error e
+  | _ => .ok none
+
+def eastermaskOf (r : Rule) (year : Int) (b : Info) : Py.R (Option (List Int)) :=
+  match r.byeaster with
+  | some (e :: es) =>
+    match buildEastermask (e :: es) year b.yearlen b.yearordinal with
+    | .ok m => .ok (some m)
+    | .error e => .error e
+  | _ => .ok none
+
 /-- `_iterinfo.rebuild(year, month)`.  The implementation caches on `(lastyear, lastmonth)`; every
     mask is a function of `(rule, year, month)` and is recomputed whenever either changes, so the
-    model is the pure function. -/
-def rebuild (r : Rule) (year month : Int) : Py.R Info := do
-  if year < 1 ∨ year > 9999 then throw PyErr.ValueError       -- datetime.date(year, 1, 1)
-  let leap := Cal.isLeap year
-  let yearlen : Int := if leap then 366 else 365
-  let nextyearlen : Int := if Cal.isLeap (year + 1) then 366 else 365
-  let yearordinal := Cal.toOrdinal year 1 1
-  let yearweekday := Cal.weekdayOfOrd yearordinal
-  let wdaymask := Gen.WDAYMASK.drop yearweekday.toNat           -- WDAYMASK[wday:]
-  let mmask := if leap then Gen.M366MASK else Gen.M365MASK
-  let mdaymask := if leap then Gen.MDAY366MASK else Gen.MDAY365MASK
-  let nmdaymask := if leap then Gen.NMDAY366MASK else Gen.NMDAY365MASK
-  let mrange := if leap then Gen.M366RANGE else Gen.M365RANGE
-  let wnomask ← match r.byweekno with
-    | some (w :: ws) => do
-        let m ← buildWnomask r.wkst (w :: ws) year yearlen yearweekday wdaymask
-        pure (some m)
-    | _ => pure none
-  let nwdaymask ← buildNwdaymask r yearlen mrange wdaymask month
-  let eastermask ← match r.byeaster with
-    | some (e :: es) => do
-        let m ← buildEastermask (e :: es) year yearlen yearordinal
-        pure (some m)
-    | _ => pure none
-  pure { yearlen, nextyearlen, yearordinal, yearweekday, mmask, mdaymask, nmdaymask, wdaymask, mrange,
-         wnomask, nwdaymask, eastermask }
+    model is the pure function.  Order of evaluation (and so of the exception that escapes):
+    `date(year, 1, 1)`, week-number mask, nth-weekday mask, easter mask. -/
+def rebuild (r : Rule) (year month : Int) : Py.R Info :=
+  if year < 1 ∨ year > 9999 then .error .ValueError       -- datetime.date(year, 1, 1)
+  else
+    match wnomaskOf r year (baseInfo year) with
+    | .error e => .error e
+    | .ok wno =>
+      match buildNwdaymask r (baseInfo year).yearlen (baseInfo year).mrange (baseInfo year).wdaymask month with
+      | .error e => .error e
+      | .ok nwd =>
+        match eastermaskOf r year (baseInfo year) with
+        | .error e => .error e
+        | .ok em => .ok { baseInfo year with wnomask := wno, nwdaymask := nwd, eastermask := em }
 
 /-! ### the iteration cursor -/
 
